@@ -1,5 +1,5 @@
 /* h_one: one (or more) wrapped execve calls between VERIF markers, for the ptrace executor.
- * usage: h_one <cfgpath> <resultfile> [uid] [ncalls] [devlogpath]
+ * usage: h_one <cfgpath> <resultfile> [uid] [ncalls] [devlogpath|-] [message length -> env M] [fill char]
  * The executable contains snoopy's objects (production wrapper); librec.so is the real-exec seam. */
 #include <errno.h>
 #include <stdio.h>
@@ -67,7 +67,8 @@ int connect(int fd, const struct sockaddr *addr, socklen_t len) {
 int main(int argc, char **argv) {
     if (argc < 3) return 2;
     strncpy(verif_cfgpath, argv[1], 4095);
-    long uid = argc > 3 ? atol(argv[3]) : 0; int n = argc > 4 ? atoi(argv[4]) : 1; devlog = argc > 5 ? argv[5] : NULL;
+    long uid = argc > 3 ? atol(argv[3]) : 0; int n = argc > 4 ? atoi(argv[4]) : 1; devlog = (argc > 5 && strcmp(argv[5], "-")) ? argv[5] : NULL;
+    if (argc > 6) { long ml = atol(argv[6]); char *m = malloc(ml + 1); memset(m, argc > 7 ? argv[7][0] : 'm', ml); m[ml] = 0; setenv("M", m, 1); free(m); }
     verif_rec_cb = cb;
     if (uid) { setgroups(0, NULL); if (setresgid(uid, uid, uid) || setresuid(uid, uid, uid)) { perror("setres"); return 3; } }
     char *av[] = { "prog", "arg one", "two", NULL }; char *ev[] = { "A=1", "LOGNAME=someone", NULL };
